@@ -729,7 +729,7 @@ structure Inv (w : World) : Prop where
   view_sep : ∀ j k, j < w.nStr → k < w.nStr → j ≠ k → ∀ e1 ∈ w.cacheOf j, ∀ e2 ∈ w.cacheOf k, e1.2 ≠ e2.2
   live : ∀ k, k < w.nStr → (w.str k).multi = true → LiveAt w k
 
-theorem inv_init : Inv World.init := by
+theorem inv_init (n : Nat) : Inv (World.init n) := by
   constructor <;> intro k <;> simp [World.init]
 
 /-- An operation that touches only the private objects of stream `k` (its `Strm` record, its indexer, its
@@ -1982,6 +1982,19 @@ theorem step_inv {w w' : World} {op : Op} (hi : Inv w) (h : w.step op = .ok w') 
       · injection hb with hb; subst hb; exact hi
       · cases hb
     · cases hb
+  | hPhases hd ps =>
+    simp only [World.body] at hb
+    split at hb
+    · split at hb
+      · cases hb
+      · split at hb
+        · injection hb with hb; subst hb; exact hi
+        · cases hb
+      · cases hb
+    · cases hb
+  | hAccessor hd =>
+    simp only [World.body] at hb
+    split at hb <;> cases hb
   | save k => simp only [World.body] at hb; injection hb with hb; subst hb; exact save_inv hi k
   | restore k idx => exact restore_inv hi (step_target_lt h rfl) hb
   | unlink k => exact unlink_inv hi (step_target_lt h rfl) hb
@@ -2020,7 +2033,7 @@ structure WF (w : World) : Prop where
   kind : ∀ k, k < w.nStr → (w.str k).multi = decide (2 ≤ (w.pr k).length)
   snaps : ∀ d ∈ w.snaps, SnapOK d
 
-theorem wf_init : WF World.init := by
+theorem wf_init (n : Nat) : WF (World.init n) := by
   constructor <;> simp [World.init]
 
 theorem IndexerOK.mono {n n' : Nat} {pr : List (Ph × Nat)} (h : IndexerOK n pr) (hn : n ≤ n') :
@@ -2862,6 +2875,19 @@ theorem body_mono {w w' : World} {op : Op} (h : w.body op = .ok w') : Mono w w' 
       · injection h with h; subst h; exact Mono.refl w
       · cases h
     · cases h
+  | hPhases hd ps =>
+    simp only [World.body] at h
+    split at h
+    · split at h
+      · cases h
+      · split at h
+        · injection h with h; subst h; exact Mono.refl w
+        · cases h
+      · cases h
+    · cases h
+  | hAccessor hd =>
+    simp only [World.body] at h
+    split at h <;> cases h
   | save k =>
     simp only [World.body] at h; injection h with h; subst h
     exact ⟨Nat.le_refl _, [w.snapshot k], rfl⟩
@@ -3005,6 +3031,19 @@ theorem step_wf {w w' : World} {op : Op} (hw : WF w) (h : w.step op = .ok w') : 
       · injection hb with hb; subst hb; exact hw
       · cases hb
     · cases hb
+  | hPhases hd ps =>
+    simp only [World.body] at hb
+    split at hb
+    · split at hb
+      · cases hb
+      · split at hb
+        · injection hb with hb; subst hb; exact hw
+        · cases hb
+      · cases hb
+    · cases hb
+  | hAccessor hd =>
+    simp only [World.body] at hb
+    split at hb <;> cases hb
   | save k =>
     simp only [World.body] at hb; injection hb with hb; subst hb
     have hk := step_target_lt h rfl
@@ -3257,5 +3296,67 @@ theorem conversion_same {w w' : World} {op : Op} {k : Nat} (hop : op.isConversio
   | lle k' => cases ht; exact accessor_same hb
   | sle k' => cases ht; exact accessor_same hb
   | _ => simp [Op.isConversion] at hop
+
+/-! ### small facts, history helpers and counterexamples (documentation; not counted among the property theorems) -/
+
+/-- a phase that keeps its exact label keeps exactly its material when no other-case phase folds into it -/
+theorem dest_exact (t : List Ph) (p : Ph) (hp : p ∈ t) : dest t p = some p := dest_of_mem hp
+
+/-- the same from any state that satisfies the invariant -/
+theorem views_live_from (w : World) (hi : Inv w) (ops : List Op) : Inv (w.run ops) := run_inv hi ops
+
+/-! counterexamples: what the setters did before they re-seated the views -/
+
+/-- `a = MultiStream(phases=(g,l)); a['l']` -/
+def viewWorld : World := (World.init 3).run [.newM [.g, .l] 300 101325 [], .view 0 .l]
+
+/-- The `MultiStream.phases` setter before commit bab44aa (defect #7): `a.phases = (g,l,s)` leaves the cached
+view of `'l'` bound to the pre-change row. -/
+theorem legacy_phases_setter_detaches_views :
+    ∃ w', viewWorld.toMultiLegacy 0 [.g, .l, .s] = .ok w' ∧ ¬ LiveAt w' 0 := by
+  have hall : ((viewWorld.sources 0).all fun s => !s.2.2 || (dest [.g, .l, .s] s.1).isSome) = true := by
+    decide
+  have hok : ∃ w', viewWorld.toMultiLegacy 0 [.g, .l, .s] = .ok w' := by
+    unfold World.toMultiLegacy
+    simp only [hall, if_true]
+    exact ⟨_, rfl⟩
+  obtain ⟨w', hw'⟩ := hok
+  refine ⟨w', hw', ?_⟩
+  intro hl
+  unfold World.toMultiLegacy at hw'
+  simp only [hall, if_true] at hw'
+  injection hw' with hw'
+  subst hw'
+  have := (hl (.l, 0) (by decide)).2.2
+  revert this
+  decide
+
+/-- `b = MultiStream(phases=(g,l))` next to `a` -/
+def linkWorld : World := (World.init 3).run [.newM [.g, .l] 300 101325 [], .view 0 .l, .newM [.g, .l] 350 90000 []]
+
+/-- `link_with` before commit d9738d9 (defect C12-5): after `a.link_with(b)` the cached view of `a['l']` is
+still bound to `a`'s old row and old thermal condition. -/
+theorem legacy_link_detaches_views : ¬ LiveAt (linkWorld.linkLegacy 0 1 true true) 0 := by
+  intro hl
+  have := (hl (.l, 0) (by decide)).2.1
+  revert this
+  decide
+
+/-- the shape invariant holds along every history (proxies included) -/
+theorem wf_history (n : Nat) (ops : List Op) : WF ((World.init n).run ops) := run_wf (wf_init n) ops
+
+
+/-- `a = MultiStream(phases=(S,l)); a['s']`: the view of the SOLID row cached under the alias key `'s'` -/
+def aliasWorld : World := (World.init 3).run [.newM [.S, .l] 300 101325 [], .view 0 .s]
+
+/-- one of the regions the model refuses (`aliasKeyClash`, fixes_proposed/C12-6): growing the phases in place to
+(S,g,l,s) leaves the view cached under `'s'` on the `'S'` row although `'s'` is now a row of its own -/
+theorem aliasKey_growth_detaches_view : LiveAt aliasWorld 0 ∧ ¬ LiveAt (aliasWorld.expand 0 [.g, .s]) 0 := by
+  constructor
+  · exact (run_inv (inv_init 3) _).live 0 (by decide) (by decide)
+  · intro hl
+    have := (hl (.s, 0) (by decide)).2.2
+    revert this
+    decide
 
 end ThermoVerif.Phases
